@@ -511,15 +511,19 @@ SURROUND = [
 def gen_fstyle(rng):
     return dict(cff=rng.choice(["", "", "c", "cff2"]), context=rng.choice(["", "", "stdctx"]),
                 ext=rng.choice(["", "", "time", "debug", "multierr", "v2:debug", "v2:time"]), dup=rng.choice(["", "", "context"]),
+                # (the module is on go 1.22: a go1.2x term pins the file - and the generated file, which inherits the
+                # constraint - to a language version with per-loop loop variables)
                 constraint=rng.choice(["//go:build cff", "//go:build cff", "//go:build cff\n// +build cff",
-                                       "// +build cff", "//go:build cff && !never"]))
+                                       "// +build cff", "//go:build cff && !never",
+                                       "//go:build cff && go1.21", "//go:build go1.20 && cff", "//go:build cff && go1.21\n// +build cff,go1.21",
+                                       "//go:build cff && go1.21 && !never", "// +build cff,go1.20"]))
 
 
 def write_module(root, packages, fancy=True):
     """packages: {pkgname: [prog,...]}. Writes a Go module 'vgen' that the real cff can process."""
     os.makedirs(root, exist_ok=True)
     with open(os.path.join(root, "go.mod"), "w") as f:
-        f.write("module vgen\n\ngo 1.19\n\nrequire (\n\tgo.uber.org/cff v0.1.0\n\tgo.uber.org/multierr v1.11.0\n"
+        f.write("module vgen\n\ngo 1.22\n\nrequire (\n\tgo.uber.org/cff v0.1.0\n\tgo.uber.org/multierr v1.11.0\n"
                 "\tverif/harness v0.0.0\n)\n\nreplace go.uber.org/cff => %s\n\nreplace verif/harness => %s\n"
                 % (REPO, HARNESS_OVERRIDE or os.path.join(os.path.dirname(os.path.dirname(os.path.abspath(__file__))), "harness")))
     import shutil
